@@ -252,6 +252,14 @@ CELER_FUNCTION auto FieldDriver<StepperT>::find_next_chord(
         }
     } while (!succeeded && --remaining_steps > 0);
 
+    if (!succeeded)
+    {
+        // The trial budget ran out right after the chord was shortened:
+        // integrate the shortened chord so that the end state corresponds to
+        // the reported step length
+        result = apply_step_(step, state);
+    }
+
     // Update step, position and momentum
     output.end.step = step;
     output.end.state = result.end_state;
@@ -400,6 +408,16 @@ FieldDriver<StepperT>::one_good_step(real_type step,
             succeeded = true;
         }
     } while (!succeeded && --remaining_steps > 0);
+
+    if (!succeeded)
+    {
+        // The trial budget ran out right after the step was reduced:
+        // integrate the reduced step so that the end state and the error
+        // estimate correspond to the reported step length
+        result = apply_step_(step, state);
+        err_sq = detail::rel_err_sq(result.err_state, step, state.mom)
+                 / ipow<2>(options_.epsilon_rel_max);
+    }
 
     // Update state, step taken by this trial and the next predicted step
     output.end.state = result.end_state;
